@@ -102,11 +102,16 @@ def check_sccs(prog, eff):
                             label, detail = "unknown", "argument does not derive from the caller's item"
                         elif d + g0 > d0:
                             label, detail = "child", "item argument is %d load(s) deeper" % (d + g0 - d0)
+                    if label == "unknown":
+                        # recursion driven by the decoding stack: the call is preceded, in this function, by a pop of a frame
+                        pops = [p_ for p_ in f.calls("_cbor_stack_pop") if f.dominates(p_, c)]
+                        if pops and not any(True for _ in f.calls("_cbor_stack_push")):
+                            label, detail = "pops", "preceded by _cbor_stack_pop at %s" % pops[0].loc()
                     edges.append((name, c.callee, c, label, detail))
         # cycle detection on non-descending edges
         adj = {}
         for a, b, c, label, _ in edges:
-            if label != "child":
+            if label not in ("child", "pops"):
                 adj.setdefault(a, []).append((b, c))
         cyc = _find_cycle(adj, comp)
         dyn = []
